@@ -17,7 +17,13 @@ type shOp struct {
 	O    int    `json:"o,omitempty"`
 	K    string `json:"k,omitempty"`
 	V    int64  `json:"v,omitempty"`
+	// ComputePut: the mapping function puts K2 => V2 into the same hash before it returns V
+	K2 string `json:"k2,omitempty"`
+	V2 int64  `json:"v2,omitempty"`
 }
+
+// producerPanic is what the mapping function of a ComputePanic step panics with
+type producerPanic struct{}
 
 func (o shOp) gallina() string {
 	switch o.Kind {
@@ -35,6 +41,10 @@ func (o shOp) gallina() string {
 		return fmt.Sprintf("OIncludes %d %s", o.H, lib.GStr(o.K))
 	case "Compute":
 		return fmt.Sprintf("OCompute %d %s %s", o.H, lib.GStr(o.K), lib.GZ(o.V))
+	case "ComputePanic":
+		return fmt.Sprintf("OComputePanic %d %s", o.H, lib.GStr(o.K))
+	case "ComputePut":
+		return fmt.Sprintf("OComputePut %d %s %s %s %s", o.H, lib.GStr(o.K), lib.GZ(o.V), lib.GStr(o.K2), lib.GZ(o.V2))
 	case "Copy":
 		return fmt.Sprintf("OCopy %d", o.H)
 	case "Merge":
@@ -67,8 +77,10 @@ func (o shOp) String() string {
 		return "New"
 	case "Put", "Compute", "GetOrDefault":
 		return fmt.Sprintf("%s(h%d,%q,%d)", o.Kind, o.H, o.K, o.V)
-	case "Delete", "Get", "Includes":
+	case "Delete", "Get", "Includes", "ComputePanic":
 		return fmt.Sprintf("%s(h%d,%q)", o.Kind, o.H, o.K)
+	case "ComputePut":
+		return fmt.Sprintf("ComputePut(h%d,%q,%d,producer puts %q=>%d)", o.H, o.K, o.V, o.K2, o.V2)
 	case "Merge", "PutAll", "Equals":
 		return fmt.Sprintf("%s(h%d,h%d)", o.Kind, o.H, o.O)
 	}
@@ -131,6 +143,29 @@ func applyImpl(objs *[]hash.StringHash, o shOp) (res shOut) {
 	case "Compute":
 		v := o.V
 		p, x := ifaceVal(h.ComputeIfAbsent(o.K, func() interface{} { return v }))
+		return shOut("RVal " + optVal(p, x))
+	case "ComputePanic":
+		// the mapping function panics; the caller recovers from exactly that panic and goes on using the hash
+		return func() (r shOut) {
+			defer func() {
+				if x := recover(); x != nil {
+					if _, ok := x.(producerPanic); ok {
+						r = "RPanic"
+						return
+					}
+					panic(x)
+				}
+			}()
+			p, x := ifaceVal(h.ComputeIfAbsent(o.K, func() interface{} { panic(producerPanic{}) }))
+			return shOut("RVal " + optVal(p, x))
+		}()
+	case "ComputePut":
+		// the mapping function re-enters the hash: it registers another key first
+		v, k2, v2 := o.V, o.K2, o.V2
+		p, x := ifaceVal(h.ComputeIfAbsent(o.K, func() interface{} {
+			h.Put(k2, v2)
+			return v
+		}))
 		return shOut("RVal " + optVal(p, x))
 	case "Copy":
 		*objs = append(*objs, h.Copy())
@@ -272,6 +307,29 @@ func applyRef(objs *[]*refHash, o shOp) shOut {
 		}
 		h.es = append(h.es, refEntry{o.K, o.V})
 		return shOut("RVal " + optVal(true, o.V))
+	case "ComputePanic":
+		if i := h.find(o.K); i >= 0 {
+			return shOut("RVal " + optVal(true, h.es[i].v))
+		}
+		if h.frozen {
+			return "RFrozen"
+		}
+		return "RPanic" // nothing was computed, nothing changes
+	case "ComputePut":
+		if i := h.find(o.K); i >= 0 {
+			return shOut("RVal " + optVal(true, h.es[i].v))
+		}
+		if h.frozen {
+			return "RFrozen"
+		}
+		h.put(o.K2, o.V2)
+		// a map has one entry per key, whatever the mapping function did
+		if i := h.find(o.K); i >= 0 {
+			h.es[i].v = o.V
+		} else {
+			h.es = append(h.es, refEntry{o.K, o.V})
+		}
+		return shOut("RVal " + optVal(true, o.V))
 	case "Copy":
 		*objs = append(*objs, h.copy())
 		return shOut(fmt.Sprintf("RObj %d", len(*objs)-1))
@@ -396,7 +454,9 @@ func shAlphabet() []shOp {
 		al = append(al, shOp{Kind: "Put", H: 0, K: k}, shOp{Kind: "Delete", H: 0, K: k})
 	}
 	al = append(al, shOp{Kind: "Compute", H: 0, K: "a"}, shOp{Kind: "Compute", H: 0, K: "d"},
-		shOp{Kind: "Freeze", H: 0}, shOp{Kind: "Copy", H: 0})
+		shOp{Kind: "Freeze", H: 0}, shOp{Kind: "Copy", H: 0},
+		// a mapping function that panics (the caller recovers), and one that registers another key first
+		shOp{Kind: "ComputePanic", H: 0, K: "c"}, shOp{Kind: "ComputePut", H: 0, K: "b", K2: "d", V2: 7})
 	return al
 }
 
@@ -434,8 +494,18 @@ func randomShHistory(r *lib.Rng, n int) []shOp {
 			op = shOp{Kind: "Put", H: h, K: k, V: v}
 		case x < 50:
 			op = shOp{Kind: "Delete", H: h, K: k}
-		case x < 56:
+		case x < 53:
 			op = shOp{Kind: "Compute", H: h, K: k, V: v}
+		case x < 54:
+			op = shOp{Kind: "ComputePanic", H: h, K: k}
+		case x < 56:
+			k2 := keys[r.Intn(len(keys))]
+			if k2 == k {
+				// the mapping function puts ANOTHER key (the same key: open finding, see shCorpus)
+				op = shOp{Kind: "Compute", H: h, K: k, V: v}
+			} else {
+				op = shOp{Kind: "ComputePut", H: h, K: k, V: v, K2: k2, V2: int64(r.Intn(5))}
+			}
 		case x < 60:
 			op = shOp{Kind: "GetOrDefault", H: h, K: k, V: v}
 		case x < 64:
@@ -485,4 +555,42 @@ func randomShHistory(r *lib.Rng, n int) []shOp {
 		ops = append(ops, shObservers(h, keys)...)
 	}
 	return ops
+}
+
+// tagComputeSameKey marks exactly the open finding C09-compute-producer-puts-same-key: the history holds a
+// ComputeIfAbsent whose mapping function puts the key being computed itself, on a hash where that key is absent.
+const tagComputeSameKey = "compute-producer-puts-same-key"
+
+func shTags(ops []shOp, bad int) []string {
+	for _, o := range ops[:bad+1] {
+		if o.Kind == "ComputePut" && o.K == o.K2 {
+			return []string{tagComputeSameKey}
+		}
+	}
+	return nil
+}
+
+// shCorpus: hand written histories.  The two seeded routes of a ComputeIfAbsent that writes its index entry too
+// early (panic + later Put; nested registration), and the open finding.
+func shCorpus() [][]shOp {
+	obs := func(ops []shOp) []shOp {
+		var out []shOp
+		out = append(out, shOp{Kind: "New"})
+		for _, o := range ops {
+			out = append(out, o)
+			out = append(out, shOp{Kind: "Includes", H: 0, K: o.K})
+			out = append(out, shObservers(0, shKeys)...)
+		}
+		return out
+	}
+	return [][]shOp{
+		obs([]shOp{{Kind: "Put", K: "a", V: 1}, {Kind: "ComputePanic", K: "b"}, {Kind: "Put", K: "c", V: 9}, {Kind: "Compute", K: "b", V: 4}}),
+		obs([]shOp{{Kind: "ComputePanic", K: "a"}, {Kind: "ComputePanic", K: "a"}, {Kind: "Put", K: "a", V: 2}, {Kind: "ComputePanic", K: "a"}}),
+		obs([]shOp{{Kind: "Put", K: "a", V: 1}, {Kind: "ComputePut", K: "b", V: 11, K2: "c", V2: 10}, {Kind: "Delete", K: "b"}, {Kind: "Delete", K: "c"}}),
+		obs([]shOp{{Kind: "Put", K: "a", V: 1}, {Kind: "ComputePut", K: "b", V: 11, K2: "a", V2: 10}, {Kind: "Delete", K: "a"}}),
+		obs([]shOp{{Kind: "Freeze"}, {Kind: "ComputePanic", K: "a"}, {Kind: "ComputePut", K: "a", V: 1, K2: "b", V2: 2}}),
+		// open finding: the mapping function puts the computed key itself
+		obs([]shOp{{Kind: "ComputePut", K: "a", V: 6, K2: "a", V2: 5}, {Kind: "Delete", K: "a"}}),
+		obs([]shOp{{Kind: "Put", K: "b", V: 1}, {Kind: "ComputePut", K: "a", V: 6, K2: "a", V2: 5}, {Kind: "Put", K: "a", V: 7}}),
+	}
 }
